@@ -206,8 +206,12 @@ def check_decomp(nodes, links):
 EDIR = {("+", "+"): (1, 0), ("+", "-"): (1, 1), ("-", "+"): (0, 0), ("-", "-"): (0, 1)}
 
 
+BOTH = "both-orientations"
+
+
 def representation(nodes, links, tags):
-    """expected adjacency sets and edge_tags from the abstract graph (links: set of (u,du,v,dv))"""
+    """expected adjacency sets and edge_tags from the abstract graph (links: set of (u,du,v,dv)).  A tag list that starts
+    with BOTH stands for a link that was declared (with tags) from both of its ends."""
     start = {n: set() for n in nodes}
     end = {n: set() for n in nodes}
     for (u, du, v, dv) in links:
@@ -217,7 +221,11 @@ def representation(nodes, links, tags):
     et = {}
     for (u, du, v, dv), t in tags.items():
         su, sv = EDIR[(du, dv)]
-        et[(u, su, v, sv)] = t
+        if t and t[0] == BOTH:
+            et[(u, su, v, sv)] = t[1:]
+            et[(v, sv, u, su)] = t[1:]
+        else:
+            et[(u, su, v, sv)] = t
     return start, end, et
 
 
@@ -314,7 +322,8 @@ def build(params):
         LO = links_over(nodes)
         nl = len(LO)
         args = [("l1", "int"), ("t1", "int"), ("l2", "int"), ("t2", "int"), ("x", "int"), ("dx", "int"), ("y", "int"), ("dy", "int"), ("tg", "int")]
-        pre = ["0 <= l1 <= %d and 0 <= l2 <= %d and 0 <= t1 <= 1 and 0 <= t2 <= 1" % (nl, nl),
+        tmax = 2 if op == "remove_node" else 1
+        pre = ["0 <= l1 <= %d and 0 <= l2 <= %d and 0 <= t1 <= %d and 0 <= t2 <= 1" % (nl, nl, tmax),
                "0 <= x <= %d and 0 <= y <= %d and 0 <= dx <= 1 and 0 <= dy <= 1 and 0 <= tg <= 1" % (len(nodes) - 1, len(nodes) - 1)]
         if "l1" in params:
             pre.append("l1 == %d and l2 >= l1" % params["l1"])
@@ -337,8 +346,11 @@ def build(params):
                 if any(same_link(l, m) for m in links):
                     continue
                 links.add(l)
-                if pick(t, [0, 1]):
+                tm = pick(t, [0, 1, 2])
+                if tm == 1:
                     tags[l] = ["XX:i:7"]
+                elif tm == 2:
+                    tags[l] = [BOTH, "XX:i:7"]
             g = direct_state(nodes, links, tags)
             r = compare(g, nodes, links, tags, "pre-state")
             if r:
